@@ -3,6 +3,8 @@
 gated samples), regime F for intrinsic plasticity."""
 from fractions import Fraction
 
+import json
+
 import numpy as np
 
 from . import common
@@ -180,10 +182,19 @@ def check_ip(ctx, c, o, mo):
     if o[0] != "ok":
         ctx.violation(f"IPReservoir.fit raised {o[1]} on valid data", c, obligation=ob)
         return
+    # conditioning: the gradient steps divide by sigma^2 and 1/a, so a few steps can amplify rounding by
+    # many orders of magnitude (a 1e-13 relative change of the inputs moved `a` by 4e-6 on one generated
+    # case). The slack is what a 1e-13 relative perturbation of the inputs does to the implementation.
+    c2 = json.loads(json.dumps(c))
+    prng = np.random.default_rng(12345)
+    c2["seqs"] = [[[v * (1 + 1e-13 * prng.standard_normal()) for v in row] for row in sq] for sq in c["seqs"]]
+    o2 = common.exc_class(run_ip, c2)
+    slack = {k: (float(np.max(np.abs(o[1][k] - o2[1][k]))) if o2[0] == "ok" else 0.0) for k in ("a", "b", "x")}
+    ctx.notes["ip_max_conditioning_slack"] = max(ctx.notes.get("ip_max_conditioning_slack", 0.0), max(slack.values()))
     for key in ("a", "b", "x"):
         mv = [unfbits(v) for v in mo[1][key]]
         for i, (e, v) in enumerate(zip(mv, o[1][key])):
-            if not (abs(e - v) <= 1e-9 * max(1.0, abs(e))):
+            if not (abs(e - v) <= 1e-9 * max(1.0, abs(e)) + slack[key]):
                 ctx.violation(f"intrinsic plasticity ({c['act']}): parameter {key}[{i}] after fit differs from the "
                               f"documented gradient steps applied once per timestep and epoch", c,
                               expected=e, observed=float(v), obligation=ob)
